@@ -419,6 +419,8 @@ def _guard_shape(prog, eff, chk, A5):
     # constructor
     for f in ctor:
         ks = kinds(f)
+        if any(x.get('kind') == 'IfStmt' for x in walk(f.body)):
+            continue        # conditional BEGIN: judged below by evaluating the constructor
         if [k for _, k, _ in ks] == ['begin']:
             chk.ok(A5, 'constructor issues exactly BEGIN', locstr(f.node))
         else:
@@ -427,10 +429,32 @@ def _guard_shape(prog, eff, chk, A5):
     # the flag: the bool member of the guard (whatever its name)
     r = prog.records.get(TXN)
     flags = [x for x in (r.fields if r else []) if (x.get('type') or '').strip() in ('bool', 'const bool')]
+    if len(flags) > 1:
+        # the committed flag is the one commit() assigns; the others are fixed at construction
+        asg = set()
+        for x in walk(commit[0].body):
+            if x.get('kind') == 'BinaryOperator' and x.get('opcode') == '=':
+                l = strip(children(x)[0])
+                if l.get('kind') == 'MemberExpr':
+                    asg.add(l.get('name'))
+            if x.get('kind') == 'CallExpr' and (strip(children(x)[0]).get('referencedDecl') or {}).get('name') == 'exchange':
+                l = strip(children(x)[1], explicit=True)
+                if l.get('kind') == 'MemberExpr':
+                    asg.add(l.get('name'))
+        cands = [x for x in flags if x.get('name') in asg]
+        others = [x for x in flags if x.get('name') not in asg]
+        if len(cands) != 1:
+            chk.unknown(A5, 'sqlite_transaction', 'expected exactly one bool member assigned by commit(), found %d' % len(cands))
+            return
+        flags = cands
+    else:
+        others = []
     if len(flags) != 1:
         chk.unknown(A5, 'sqlite_transaction', 'expected exactly one bool member as committed flag, found %d' % len(flags))
         return
     flag = flags[0].get('name')
+    fixed = {}          # further bool members: name -> value at construction (no transaction open: autocommit != 0)
+    autocommit = [0]    # what sqlite3_get_autocommit() yields in the state being evaluated
 
     class Unknown(Exception):
         pass
@@ -455,6 +479,16 @@ def _guard_shape(prog, eff, chk, A5):
             return not cond_value(children(c)[0], val)
         if c.get('kind') == 'MemberExpr' and c.get('name') == flag:
             return val
+        if c.get('kind') == 'MemberExpr' and c.get('name') in fixed:
+            return fixed[c['name']]
+        if c.get('kind') == 'CXXMemberCallExpr':
+            # a predicate member of the guard (`bool in_transaction() const { return ...; }`)
+            nm_ = strip(children(c)[0]).get('name')
+            gs_ = [g for g in prog.functions.values() if g.cls == TXN and g.name == nm_ and g.body is not None]
+            if len(gs_) == 1:
+                b_ = [x for x in children(gs_[0].body)]
+                if len(b_) == 1 and b_[0].get('kind') == 'ReturnStmt' and children(b_[0]):
+                    return cond_value(children(b_[0])[0], val)
         if c.get('kind') == 'BinaryOperator' and c.get('opcode') in ('&&', '||'):
             a_, b_ = children(c)
             if c['opcode'] == '&&':
@@ -463,7 +497,7 @@ def _guard_shape(prog, eff, chk, A5):
         if c.get('kind') == 'CallExpr':
             nm = (strip(children(c)[0]).get('referencedDecl') or {}).get('name')
             if nm == 'sqlite3_get_autocommit':
-                return 0
+                return autocommit[0]
             if nm == 'exchange' and len(children(c)) == 3:
                 # std::exchange(flag, v): yields the old value and stores v
                 tgt = strip(children(c)[1], explicit=True)
@@ -527,6 +561,35 @@ def _guard_shape(prog, eff, chk, A5):
             raise Unknown('statement %s' % locstr(node))
         return True
     try:
+        # construction of the outermost guard: no transaction is open, sqlite3_get_autocommit() != 0
+        autocommit[0] = 1
+        for o_ in others:
+            ini = None
+            for f in ctor:
+                for ci in f.inits:
+                    if (ci.get('anyInit') or {}).get('name') == o_.get('name') and children(ci):
+                        ini = children(ci)[-1]
+            if ini is None:
+                dm = [y for y in children(o_) if not y['kind'].endswith('Attr') and not y['kind'].endswith('Comment')]
+                ini = dm[-1] if dm else None
+            if ini is None:
+                raise Unknown('member %s has no initialiser' % o_.get('name'))
+            while strip(ini).get('kind') == 'InitListExpr' and len(children(strip(ini))) == 1:
+                ini = children(strip(ini))[0]
+            fixed[o_.get('name')] = bool(cond_value(ini, False))
+        if others:
+            for f in ctor:
+                out = []
+                events(f, f.body, [False], out)
+                got = [x[1] for x in out if x[0] == 'stmt']
+                if got == ['begin']:
+                    chk.ok(A5, 'constructor of the outermost guard (%s) issues BEGIN' % fixed, locstr(f.node))
+                else:
+                    chk.violation(A5, 'sqlite_transaction|ctor', locstr(f.node),
+                                  'constructed while no transaction is open (sqlite3_get_autocommit() != 0, so %s) the '
+                                  'guard issues %s, expected BEGIN: the statements it is meant to group run in autocommit '
+                                  'mode, each on its own' % (fixed, got or 'nothing'))
+        autocommit[0] = 0       # from here on the guard's transaction is open
         f = dtor[0]
         for v0, want in ((False, (['rollback'], ['rollback-to', 'commit'])), (True, ([],))):
             out = []
